@@ -100,7 +100,7 @@ func clusterMain(args []string) {
 	startNode := func(i int) error {
 		r := nodes[i]
 		if r == nil {
-			r = &replica{id: i + 1, key: keys[i], base: filepath.Join(dir, fmt.Sprintf("n%d", i+1)), gen: gen}
+			r = &replica{id: i + 1, key: keys[i], base: filepath.Join(dir, fmt.Sprintf("n%d", i+1)), gen: gen, drainOnClose: true}
 			nodes[i] = r
 		}
 		var err error
